@@ -2,7 +2,7 @@
    ONLY theorem statements; each is closed by [exact] of a lemma of C15/Proofs.v. *)
 From Coq Require Import List Arith NArith Bool.
 Import ListNotations.
-From Verif.C15 Require Import Model Proofs.
+From Verif.C15 Require Import Model Proofs Clean.
 
 (* ---- 1. promptly ------------------------------------------------------------------------- *)
 
@@ -93,9 +93,21 @@ Theorem no_race_flag : forall (tr : trace) (progs : nat -> list event),
   hb hb1_lock tr i j /\ hb hb1 tr i j.
 Proof. exact Proofs.no_race_protocol. Qed.
 
-(* ---- 5. cleanly: refuted on the current tree inside generator/async resumptions (F16) and for-of over an
-        iterator with a script return() (F20); the specification is clean on the same inputs ------------- *)
+(* ---- 5. cleanly --------------------------------------------------------------------------- *)
 
+(* For EVERY program that does not resume a generator / async function (the region of the open finding F16) —
+   and for every program at all in the specification (fixed = true) —, every entry point, every interrupt
+   position (k-th probe, or another goroutine at any micro-step), with or without ClearInterrupt, from any idle
+   state: after the API call returns, callStack, tryStack and iterStack are back at their idle values whatever
+   the outcome; if it returned the InterruptedError, the job queue has been dropped and the flag is cleared. *)
+Theorem interrupt_clean : forall c fuel e p s o s',
+  (fixed c = true \/ no_gen_c p = true) ->
+  cs s = 0 -> ts s = [] -> its s = [] -> jq s = [] ->
+  run_top c fuel e p s = (o, s') ->
+  cs s' = 0 /\ ts s' = [] /\ its s' = [] /\ (forall t, o = OIntr t -> is_idle s' = true).
+Proof. exact Clean.interrupt_clean_from. Qed.
+
+(* outside the guard it is refuted on the current tree (F16): generator resumption, async continuation *)
 Definition w_gen : code := CCons (IGen (SCons (CCons IProbe CNil) (SCons (CCons IProbe CNil) SNil))) CNil.
 Definition w_async : code := CCons (IAsync (CCons IProbe CNil) (CCons IProbe CNil)) CNil.
 Definition w_iter : code := CCons (IForOf (Some 11%N) (SCons (CCons IProbe CNil) (SCons (CCons IProbe CNil) SNil))) CNil.
@@ -104,15 +116,16 @@ Lemma interrupt_clean_refuted :
   (let '(o, s) := run_top (mkCfg false 2 false None) 8 ERun w_gen idle0 in
    o = OIntr 1002%N /\ idle_vec s = [2; 1; 0; 0; 1]) /\
   (let '(o, s) := run_top (mkCfg false 2 false None) 8 ERun w_async idle0 in
-   o = OIntr 1002%N /\ idle_vec s = [1; 1; 0; 0; 1]) /\
-  (let '(o, s) := run_top (mkCfg false 1 false None) 8 ERun w_iter idle0 in
-   o = OIntr 1001%N /\ idle_vec s = [0; 0; 1; 0; 0]).
+   o = OIntr 1002%N /\ idle_vec s = [1; 1; 0; 0; 1]).
 Proof. vm_compute. repeat split. Qed.
 
+(* the specification is clean on the same inputs; the former F20 witness (for-of over an iterator with a
+   script return(), repaired by 22853aa) is now clean as-is, with no return() event in the log *)
 Lemma interrupt_clean_spec_on_witnesses :
   is_idle (snd (run_top (mkCfg true 2 false None) 8 ERun w_gen idle0)) = true /\
   is_idle (snd (run_top (mkCfg true 2 false None) 8 ERun w_async idle0)) = true /\
-  is_idle (snd (run_top (mkCfg true 1 false None) 8 ERun w_iter idle0)) = true.
+  (let '(o, s) := run_top (mkCfg false 1 false None) 8 ERun w_iter idle0 in
+   o = OIntr 1001%N /\ is_idle s = true /\ rev (log s) = [7%N]).
 Proof. vm_compute. repeat split. Qed.
 
 (* ---- non-vacuity -------------------------------------------------------------------------- *)
@@ -160,4 +173,5 @@ Print Assumptions interrupt_skips_exactly_handlers.
 Print Assumptions idle_interrupt_next_call.
 Print Assumptions idle_interrupt_cleared.
 Print Assumptions no_race_flag.
+Print Assumptions interrupt_clean.
 Print Assumptions interrupt_clean_refuted.
